@@ -392,55 +392,86 @@ def run_solver(name, text, timeout):
     return res, out, dt
 
 
-def solve(text, timeout, order=("z3-new", "z3", "cvc5")):
-    """Race the portfolio: all back ends start at once, the first decisive answer wins (others are
-    killed). `sat` from one and `unsat` from another is reported as a conflict."""
+def solve(text, timeout, order=("z3-new", "z3", "cvc5"), alts=(), stagger=1.5):
+    """Race the portfolio; the first decisive answer wins and the others are killed. To keep the machine from
+    being flooded, only the first back end (on the full query and on each reduced variant) starts at once; the
+    rest start after `stagger` seconds if the obligation is still open. `alts` are (name, text) variants of the
+    same obligation with FEWER hypotheses: only `unsat` is accepted from them."""
     os.makedirs(SCRATCH, exist_ok=True)
     h = hashlib.sha1(text.encode()).hexdigest()[:16]
     path = os.path.join(SCRATCH, f"q-{h}-{os.getpid()}-{id(text) % 100000}.smt2")
     with open(path, "w") as f:
         f.write(text)
+    alt_paths = []
+    plan = [(order[0], path)]
+    for k, (aname, atext) in enumerate(alts):
+        if atext == text:
+            continue
+        ap = path[:-5] + f"-{aname}.smt2"
+        with open(ap, "w") as f:
+            f.write(atext)
+        alt_paths.append(ap)
+        plan.append((order[0] + "/" + aname, ap))
+    first_wave = len(plan)
+    plan += [(n, path) for n in order[1:]]
+    if alt_paths:
+        plan.append(("z3/" + alts[0][0], alt_paths[0]))
+    alt_path = None
+    if len(order) == 1:
+        first_wave = len(plan)
     t0 = time.time()
     procs = {}
-    for name in order:
-        try:
-            procs[name] = subprocess.Popen(SOLVERS[name](path, timeout), stdout=subprocess.PIPE, stderr=subprocess.STDOUT, text=True)
-        except OSError as e:
-            procs[name] = None
     tried = {}
+
+    def start(name, p):
+        base = name.split("/")[0]
+        try:
+            procs[name] = subprocess.Popen(SOLVERS[base](p, timeout), stdout=subprocess.PIPE, stderr=subprocess.STDOUT, text=True)
+        except OSError:
+            tried[name] = {"solver": name, "result": "error", "s": 0.0, "output": "not startable"}
+
+    for name, p in plan[:first_wave]:
+        start(name, p)
+    waiting = plan[first_wave:]
     decisive = None
-    deadline = t0 + timeout + 5
-    pending = {n for n, p in procs.items() if p is not None}
-    for n, p in procs.items():
-        if p is None:
-            tried[n] = {"solver": n, "result": "error", "s": 0.0, "output": "not startable"}
-    while pending and decisive is None and time.time() < deadline:
-        for n in list(pending):
+    deadline = t0 + timeout + stagger + 5
+    while decisive is None and time.time() < deadline:
+        if waiting and time.time() - t0 >= stagger:
+            for name, p in waiting:
+                start(name, p)
+            waiting = []
+        pending = [n for n in procs if n not in tried]
+        if not pending and not waiting:
+            break
+        for n in pending:
             p = procs[n]
             if p.poll() is not None:
                 out = (p.stdout.read() or "").strip()
                 first = out.split("\n", 1)[0].strip() if out else ""
                 res = first if first in ("sat", "unsat", "unknown") else ("timeout" if ("timeout" in out or "interrupted" in out or "resourceout" in out) else "error")
+                if "/" in n and res == "sat":
+                    res = "unknown"      # fewer hypotheses: a model means nothing
                 tried[n] = {"solver": n, "result": res, "s": round(time.time() - t0, 3), "output": res if res in ("sat", "unsat") else out[:400]}
-                pending.discard(n)
                 if res in ("sat", "unsat"):
                     decisive = (n, res, out)
                     break
-        if decisive is None and pending:
+        if decisive is None:
             time.sleep(0.005)
-    for n in pending:
+    for n, p in procs.items():
+        if n not in tried:
+            try:
+                p.kill()
+                p.wait()
+            except Exception:
+                pass
+            tried[n] = {"solver": n, "result": "cancelled" if decisive else "timeout", "s": round(time.time() - t0, 3), "output": ""}
+    for pth in [path] + alt_paths:
         try:
-            procs[n].kill()
-            procs[n].wait()
-        except Exception:
+            os.unlink(pth)
+        except OSError:
             pass
-        tried.setdefault(n, {"solver": n, "result": "cancelled" if decisive else "timeout", "s": round(time.time() - t0, 3), "output": ""})
-    try:
-        os.unlink(path)
-    except OSError:
-        pass
     dt = time.time() - t0
-    tl = [tried[n] for n in order if n in tried]
+    tl = [tried[n] for n, _ in plan if n in tried]
     if decisive:
         return {"result": decisive[1], "solver": decisive[0], "s": dt, "tried": tl, "raw": decisive[2]}
     return {"result": "unknown", "solver": None, "s": dt, "tried": tl, "raw": ""}
